@@ -10,6 +10,7 @@ _DRV = os.path.normpath(os.path.join(os.path.dirname(os.path.abspath(__file__)),
 _pending = []
 _lab = {}
 _first = {}
+_feat = {}
 
 
 def record(req):
@@ -28,9 +29,11 @@ def label(req):
             out = []
         for k, r in enumerate(batch):
             o = out[k] if k < len(out) else ""
-            _lab[r] = "in-contract" if o == "ic" else ("out-of-contract" if o.startswith("oc") else "contract-unknown")
+            head = o.split(" f=")[0]
+            _lab[r] = "in-contract" if head == "ic" else ("out-of-contract" if head.startswith("oc") else "contract-unknown")
+            _feat[r] = o.split(" f=")[1] if " f=" in o else ""
             try:
-                _first[r] = int(o.split()[1]) if o.startswith("oc") else None
+                _first[r] = int(head.split()[1]) if head.startswith("oc") else None
             except Exception:
                 _first[r] = None
     return _lab[req]
@@ -40,3 +43,12 @@ def first_out_of_contract(req):
     """index of the first op of the history that does not keep to the documented contract (None: the whole history does)"""
     label(req)
     return _first.get(req)
+
+
+def features(req):
+    """what the in-contract part of the history exercises (letters: lean/Driver/Fam/Store.lean `contractOf`): set_value of an existing
+    item in a loop with >= 2 packets (M) / one packet (S) / none (Z), of a new item creating the scalar loop (C) / joining it (J) /
+    joining a scalar loop without packet (P), invalid name (i); get_packets granted (O) / refused (R); close or abort (E); a call on
+    another CIF while an iterator is open (X); a call after an iterator session ended (A)"""
+    label(req)
+    return _feat.get(req, "")
